@@ -275,3 +275,14 @@ CHECKS["C18"] = dict(
     design_ref="DESIGN.md 9/C18",
     level_text="Evaluated on every quiescent state reached by the exhaustive bounded exploration (quick: one preemption; thorough: the hosts' bounds).",
 )
+
+CHECKS["C16"] = dict(
+    title="lock-based hash containers across resizes",
+    units=_units("harness/sets_lock.cpp", [1, 2, 3]),
+    rule=SET_RULE,
+    explanation="CuckooSet (striping and refinable mutex policies over the scheduler's recursive mutex; list and vector<2> probe sets; stored hashes on/off; initial size 4, probe set 2, threshold 1 so that the "
+                "third colliding insert relocates and the fifth resizes; two colliding hash functions) and StripedSet (std::list and std::set buckets; striping and refinable policies; a bucket of more than "
+                "one item triggers a resize of the 16-bucket table): programs race the insert that resizes with operations on keys that move, two resizers, and update/find; deadlock = violation." + SET_EXPL_TAIL,
+    design_ref="DESIGN.md 9/C16",
+    level_text="Exhaustive within bounds on the real containers; blocking on the policy's mutexes is handled by the scheduler, so lock-order deadlocks are found as such.",
+)
